@@ -412,7 +412,7 @@ def builder_carry_over(ck, F, rid, prefixes):
             continue
         ty = str(b.raw["locals"][1])
         base = ty.split("<")[0].lstrip("&").replace("mut ", "")
-        carried, crossed = [], []
+        carried, crossed, reset = [], [], []
         for i, j, st in b.stmts():
             if st["k"] != "assign" or "agg" not in st["rv"]:
                 continue
@@ -429,6 +429,17 @@ def builder_carry_over(ck, F, rid, prefixes):
                 if o[0] == "arg" and o[1] == 1 and o[2]:
                     g = o[2][0].get("n")
                     (carried if g == f else crossed).append((f, g))
+                elif o[0] == "call" and len(o) > 3 and o[3] and (o[2]["callee"].get("method") in ("default", "new")) and not o[2]["argv"] and \
+                        str(b.raw["locals"][0]).split("<")[0] == base:
+                    # `Self { x, ..Self::default() }` in a method that consumes a configured `self`: every option given
+                    # before this call is silently put back to its default
+                    reset.append(f)
+        if reset and (carried or b.argc >= 2):
+            n += 1
+            ck.bad(rid, "%s keeps the options configured before it" % "::".join(b.path.split("::")[-2:]), where(b.raw["sp"]),
+                   "fields %s of the result are taken from a fresh %s::default()/new(), not from `self`: calling this method discards what was configured before it"
+                   % (sorted(set(reset)), base.split("::")[-1]), fn=b.path)
+            continue
         if not carried and not crossed:
             continue
         n += 1
